@@ -949,6 +949,15 @@ def ref_seed(ctx: Ctx) -> RuleResult:
         right_name = dotted(c.node.comparators[0])
         if right_name in stub_lists:
             good = c
+    if good is None and isinstance(bc, (ast.For, ast.While)):
+        # loop form with a guard clause: `if <id> in <stub ids>: continue` before the write
+        for g_ in own_walk(bc):
+            if isinstance(g_, ast.If) and g_.body and isinstance(g_.body[-1], ast.Continue) and not g_.orelse \
+                    and isinstance(g_.test, ast.Compare) and len(g_.test.ops) == 1 and isinstance(g_.test.ops[0], ast.In) \
+                    and dotted(g_.test.comparators[0]) in stub_lists:
+                for c in sp.cmps:
+                    if c.node is g_.test:
+                        good = c
     if good is None:
         later_del = any(isinstance(n, ast.Call) and isinstance(n.func, ast.Attribute) and n.func.attr in ("pop", "__delitem__")
                         and (dotted(n.func.value) or "").endswith(".results") for n in iter_own_nodes(f.node)) or \
